@@ -117,7 +117,10 @@ def e2e_case(c):
     sim.add_molecules(Molecules(ptrue[None] * scale, Rtrue), tmpl)
     tomo = sim.simulate((46, 46, 46))
     rots = tuple(tuple(x) for x in c["rotations"])
-    model = M(tmpl, rotations=rots)
+    # the searched set of (max, step) is {k*step : |k*step| <= max}: the true rotation is taken from the set of the
+    # canonical range (floor(max/step)*step, step), the search is run with the range as given
+    canon = tuple(tuple(x) for x in c.get("rotations_canonical", c["rotations"]))
+    model = M(tmpl, rotations=canon)
     q = Rotation.from_quat(model.quaternions[c["k"]:c["k"] + 1])
     s = np.array(c["shift_px"])
     A = Rtrue * q.inv()
@@ -136,10 +139,17 @@ def e2e_case(c):
         ld = SubtomogramLoader(tomo, mol2, order=3, scale=scale, output_shape=tmpl.shape)
         g = ld.groupby("g").align(tmpl, **kw)
         mo = list(g)[0][1].molecules
-    else:  # multi-template: the true template plus a decoy
+    else:  # multi-template: the true template plus a decoy, through align_multi_templates or through align(list)
         decoy = np.ascontiguousarray(tmpl[::-1, ::-1, :])
-        out = SubtomogramLoader(tomo, mol, order=3, scale=scale, output_shape=tmpl.shape).align_multi_templates(
-            [decoy, tmpl], **kw)
+        ld_ = SubtomogramLoader(tomo, mol, order=3, scale=scale, output_shape=tmpl.shape)
+        if c["loader"] == "multi":
+            out = ld_.align_multi_templates([decoy, tmpl], **kw)
+        elif c["loader"] == "multi-align":
+            out = ld_.align([decoy, tmpl], **kw)
+        else:
+            b = BatchLoader(order=3, scale=scale, output_shape=tmpl.shape)
+            b.add_tomogram(tomo, mol, image_id=1)
+            out = b.align(np.stack([decoy, tmpl]), **kw)
         mo = out.molecules
         if int(mo.features["labels"][0]) != 1:
             return False, f"multi-template label {int(mo.features['labels'][0])} != 1"
@@ -160,16 +170,27 @@ def oracle_e2e(ck, rng):
         rots = [((20, 20), (0, 0), (0, 0)), ((0, 0), (90, 90), (0, 0)), ((0, 0), (0, 0), (30, 30)), ((10, 10), (10, 10), (0, 0)),
                 ((90, 90), (0, 0), (0, 0))][i % 5]
         K = 9 if i % 5 == 3 else 3
+        canon = rots
+        if (i // 5) % 2:
+            # same searched set written with a maximum that is not a multiple of the step
+            rots = [((27, 20), (0, 0), (0, 0)), ((0, 0), (100, 90), (0, 0)), ((0, 0), (0, 0), (44, 30)), ((14, 10), (19, 10), (0, 0)),
+                    ((120, 90), (0, 0), (0, 0))][i % 5]
         # fractional search range (in pixels) and displacements up to its edge, in the input molecule frame
         mpx = float(rng.choice([2.0, 2.75, 1.4]))
         sh = np.round(rng.uniform(-mpx, mpx, size=3) * 20) / 20
         if i % 2:
             ax = int(rng.integers(0, 3))
             sh[ax] = float(rng.choice([-1, 1])) * np.floor(mpx * 20) / 20     # on the edge of the permitted range
-        c = dict(model=["zncc", "ncc", "pcc"][i % 3], loader=["single", "batch", "group", "multi"][(i // 3) % 4],
-                 scale=float(rng.choice([1.0, 0.5, 1.6])), rv_true=(rng.normal(size=3) * 0.6).tolist(),
-                 p_true=(22 + rng.uniform(-1, 1, size=3)).tolist(), rotations=[list(x) for x in rots], k=int(rng.integers(0, K)),
+        c = dict(model=["zncc", "ncc", "pcc"][i % 3], loader=["single", "batch", "group", "multi", "multi-align", "multi-batch-align"][(i // 3) % 6],
+                 scale=float(rng.choice([1.0, 0.5, 1.6, 2.0])), rv_true=(rng.normal(size=3) * 0.6).tolist(),
+                 p_true=(22 + rng.uniform(-1, 1, size=3)).tolist(), rotations=[list(x) for x in rots], rotations_canonical=[list(x) for x in canon],
+                 k=int(rng.integers(0, K)),
                  shift_px=sh.tolist(), max_shift_px=mpx)
+        if c["loader"].startswith("multi-"):
+            # the glue between align and align_multi_templates converts nm to pixels: use a non-unit scale and an edge displacement
+            c["scale"] = [2.0, 1.6, 0.5][i % 3]
+            sh[int(rng.integers(0, 3))] = float(rng.choice([-1, 1])) * np.floor(mpx * 20) / 20
+            c["shift_px"] = sh.tolist()
         try:
             ok, detail = e2e_case(c)
         except Exception as e:  # noqa
